@@ -170,7 +170,7 @@ def _work(ctx: Ctx, item):
             visited_pairs += 1
             ctx.klass("class:" + cname)
             f = d.fields[fi]
-            values = [spec] if isinstance(spec, int) else list(spec[1]) if spec[0] == "choice" and cname in ("source_constant", "f_special") else None
+            values = [spec] if isinstance(spec, int) else list(spec[1]) if spec[0] == "choice" and cname in ("source_constant", "f_special", "magnitude_edge") else None
             if values is not None and fi in pos:
                 m = ((1 << f.bits) - 1) << pos[fi]
                 nb = max(bn, (pos[fi] + f.bits + 7) // 8)
